@@ -863,24 +863,37 @@ theorem sound_pipeline {c : Cfg} {f : Nat} (ih : SoundIH c f) :
     split at hpost
     · cases hpost
     · rename_i b' r'' hre2
-      cases hpost
-      obtain ⟨cm, hcm, hcase⟩ := ih.command _ _ _ _ _ pr hcmd hpr hpre hio
-      -- the command with its redirections, and what follows it
-      have key : ∃ full e0, Derives c (.command q neg) e0 full ∧ ts = full ++ r' ∧
-          allows .sub e0 r'.head? = true := by
-        rcases hcase with ⟨e0, hd, hal⟩ | ⟨hpr0, hd⟩
-        · have hne : r.head? ≠ some io := by
-            intro hh; rw [hh, allows_io] at hal; cases hal
-          have := redirs_none_of_head hre2 hne
-          subst this
-          exact ⟨pr ++ cm, e0, hd, by rw [hts, hcm]; simp, hal⟩
-        · subst hpr0
-          obtain ⟨post, hpost, hr, _, hio2⟩ := redirs_sound r hre2
-          exact ⟨cm ++ post, .closed, .c_compound hd hpost, by rw [hts, hcm, hr]; simp,
-            allows_closed_of_ne hio2⟩
-      obtain ⟨full, e0, hd, hfull, hal⟩ := key
-      obtain ⟨t, e, hdt, hbin, hr', hal', hnp⟩ := ih.pipeTail _ _ _ _ e0 ht hal
-      exact ⟨full, e0, t, e, hd, hdt, hbin, by rw [hfull, hr']; simp, hal', hnp⟩
+      split at hpost
+      · cases hpost
+      · rename_i hchk
+        cases hpost
+        obtain ⟨cm, hcm, hcase⟩ := ih.command _ _ _ _ _ pr hcmd hpr hpre hio
+        -- the command with its redirections, and what follows it
+        have key : ∃ full e0, Derives c (.command q neg) e0 full ∧ ts = full ++ r' ∧
+            allows .sub e0 r'.head? = true := by
+          rcases hcase with ⟨e0, hd, hal⟩ | ⟨hpr0, hd⟩
+          · have hne : r.head? ≠ some io := by
+              intro hh; rw [hh, allows_io] at hal; cases hal
+            have := redirs_none_of_head hre2 hne
+            subst this
+            exact ⟨pr ++ cm, e0, hd, by rw [hts, hcm]; simp, hal⟩
+          · subst hpr0
+            obtain ⟨post, hpost, hr, hb', hio2⟩ := redirs_sound r hre2
+            refine ⟨cm ++ post, _, .c_compound hd hpost, by rw [hts, hcm, hr]; simp, ?_⟩
+            split
+            · exact allows_closed_of_ne hio2
+            · rename_i hcl
+              simp only [Bool.or_eq_true, not_or, Bool.not_eq_true] at hcl
+              have hfo : followsOpen r'.head? = true := by
+                simp only [hb', hcl.1, hcl.2, Bool.not_false, Bool.and_true, Bool.true_and,
+                  Bool.not_eq_true', Bool.not_eq_false] at hchk
+                simpa using hchk
+              cases hh : r'.head? with
+              | none => rfl
+              | some t => rw [hh] at hfo; simpa [allows, openOK, followsOpen] using hfo
+        obtain ⟨full, e0, hd, hfull, hal⟩ := key
+        obtain ⟨t, e, hdt, hbin, hr', hal', hnp⟩ := ih.pipeTail _ _ _ _ e0 ht hal
+        exact ⟨full, e0, t, e, hd, hdt, hbin, by rw [hfull, hr']; simp, hal', hnp⟩
 
 theorem seal_allows {e : End} {n : Option Tok} (h : allows .sub e n = true) (hn : notCont n = true) :
     allows .sub e.seal n = true := by
